@@ -633,7 +633,8 @@ func mergeCollectorAttrs(src map[string]*sysl.Attribute, dst map[string]*sysl.At
 		dstAttr, dstOK := dst[k].GetAttribute().(*sysl.Attribute_A)
 		vAttr, vOK := v.GetAttribute().(*sysl.Attribute_A)
 		if !dstOK || !vOK {
-			mergeAttrs(map[string]*sysl.Attribute{k: v}, dst)
+			// the target gets a copy: what later entries add to the target must not grow this entry's own attribute
+			mergeAttrs(map[string]*sysl.Attribute{k: proto.Clone(v).(*sysl.Attribute)}, dst)
 			continue
 		}
 		for _, e := range vAttr.A.Elt {
